@@ -397,6 +397,51 @@ func c34(r *core.Report, p *core.Prog, thorough bool) {
 		r.Unresolved("C34.recover", "BLS0ChainReconstruction.Add")
 	}
 
+	// ---- received shares
+	if fn := dkgM("AddSecretShare"); fn != nil {
+		r.Rule("C34.add-share", "AddSecretShare stores the decoded share under the given id on every success path; the only success path without the store is the one on which the share already stored is known equal")
+		var upd *ssa.MapUpdate
+		for _, b := range fn.Blocks {
+			for _, in := range b.Instrs {
+				if mu, ok := in.(*ssa.MapUpdate); ok {
+					if f, _ := loadOfAnyField(mu.Map); f != nil && f.Name() == "receivedSecretShares" {
+						upd = mu
+					}
+				}
+			}
+		}
+		if r.Check(upd != nil, "C34.add-share", "AddSecretShare:store", p.Pos(fn.Pos()), "receivedSecretShares[id] = share") {
+			ks, vs := c34Sources(upd.Key), c34Sources(upd.Value)
+			r.Check(ks.has("param:id") && vs.has("param:share"), "C34.add-share", "AddSecretShare:operands", p.Pos(upd.Pos()), fmt.Sprintf("key %v value %v", ks.list(), vs.list()))
+			bad := ""
+			for _, ret := range core.SuccessExits(fn) {
+				if ret.Block() == fn.Recover {
+					continue
+				}
+				path, _, found := core.PathQuery{Fn: fn, Barrier: func(x ssa.Instruction) bool { return x == ssa.Instruction(upd) },
+					EdgeOK: func(from *ssa.BasicBlock, i int) bool {
+						if !core.FeasibleEdge(from, i) {
+							return false
+						}
+						if ifi, ok := from.Instrs[len(from.Instrs)-1].(*ssa.If); ok {
+							cv, taken := stripNot(ifi.Cond, i == 0)
+							if c, ok := cv.(*ssa.Call); ok && taken && strings.HasSuffix(core.CalleeName(c.Common()), "bls.SecretKey).IsEqual") {
+								return false // the identical share is already there
+							}
+						}
+						return true
+					},
+					Target: func(x ssa.Instruction) bool { return x == ssa.Instruction(ret) }}.Find()
+				if found {
+					bad = p.PathString(path)
+				}
+			}
+			r.Check(bad == "", "C34.add-share", "AddSecretShare:stored-on-success", p.Pos(upd.Pos()), "no success exit leaves a different (or no) share in place: "+bad)
+		}
+	} else {
+		r.Unresolved("C34.add-share", "DKG.AddSecretShare")
+	}
+
 	// ---- client shares
 	c34ClientShares(r, p)
 
@@ -660,20 +705,50 @@ func c34ClientShares(r *core.Report, p *core.Prog) {
 	}
 	subs := c34Calls(split, "bls.FrSub")
 	adds := c34Calls(split, "bls.SecretKey).Add")
-	if r.Check(len(subs) == 1 && len(adds) == 1, "C34.client-shares", "split:shape", p.Pos(split.Pos()), fmt.Sprintf("%d FrSub / %d SecretKey.Add", len(subs), len(adds))) {
+	inLoopEveryIteration := func(c *ssa.Call) bool {
+		ls := core.LoopsContaining(split, c.Block())
+		if len(ls) == 0 {
+			return false
+		}
+		l := ls[len(ls)-1]
+		_, _, found := core.PathQuery{Fn: split, Start: l.Header.Succs[0].Instrs[0], Barrier: func(x ssa.Instruction) bool { return x == ssa.Instruction(c) }, EdgeOK: core.FeasibleEdge,
+			Target: func(x ssa.Instruction) bool { return x == l.Header.Instrs[0] }}.Find()
+		return !found
+	}
+	switch {
+	case len(subs) == 1 && len(adds) == 1:
+		// (A) sum the generated keys, then last = primary - sum
 		sub, add := subs[0], adds[0]
 		a, b := c34Sources(sub.Call.Args[1]), c34Sources(sub.Call.Args[2])
 		r.Check(a.has("field:privateKey") && !a.has("call:(*"+libBLS+".SecretKey).Add") && b.has("call:(*"+libBLS+".SecretKey).Add"), "C34.client-shares", "split:last-is-primary-minus-sum", p.Pos(sub.Pos()), fmt.Sprintf("FrSub(last, primary %v, aggregate %v)", a.list(), b.list()))
-		// every generated key is added
-		ls := core.LoopsContaining(split, add.Block())
-		okL := len(ls) > 0
-		if okL {
-			l := ls[len(ls)-1]
-			_, _, found := core.PathQuery{Fn: split, Start: l.Header.Succs[0].Instrs[0], Barrier: func(x ssa.Instruction) bool { return x == ssa.Instruction(add) }, EdgeOK: core.FeasibleEdge,
-				Target: func(x ssa.Instruction) bool { return x == l.Header.Instrs[0] }}.Find()
-			okL = !found
+		r.Check(inLoopEveryIteration(add), "C34.client-shares", "split:every-key-summed", p.Pos(add.Pos()), "each generated split key is added to the aggregate in its iteration")
+	case len(subs) == 1 && len(adds) == 0:
+		// (B) running subtraction: acc starts as the primary key; acc = acc - generated, every iteration
+		sub := subs[0]
+		out, a := sub.Call.Args[0], sub.Call.Args[1]
+		okB := out == a
+		d := "FrSub(&acc, &acc, &generated)"
+		if !okB {
+			d = "the running remainder is overwritten from another value each time: only the last generated key is subtracted"
+		} else if al, isAl := out.(*ssa.Alloc); isAl {
+			init := c34Src{}
+			for _, sv := range core.StoresTo(al) {
+				for k := range c34Sources(sv) {
+					init[k] = true
+				}
+			}
+			if !init.has("field:privateKey") {
+				okB, d = false, "the remainder does not start from the primary key"
+			}
 		}
-		r.Check(okL, "C34.client-shares", "split:every-key-summed", p.Pos(add.Pos()), "each generated split key is added to the aggregate in its iteration")
+		g := c34Sources(sub.Call.Args[2])
+		if okB && !g.has("call:(*"+pkgEnc+".BLS0ChainScheme).GenerateKeys") && !g.has("field:privateKey") {
+			okB, d = false, "what is subtracted is not the generated key"
+		}
+		r.Check(okB, "C34.client-shares", "split:last-is-primary-minus-sum", p.Pos(sub.Pos()), d)
+		r.Check(inLoopEveryIteration(sub), "C34.client-shares", "split:every-key-summed", p.Pos(sub.Pos()), "each generated split key is subtracted in its iteration")
+	default:
+		r.Fail("C34.client-shares", "split:shape", p.Pos(split.Pos()), fmt.Sprintf("%d FrSub / %d SecretKey.Add: neither sum-then-subtract nor running subtraction", len(subs), len(adds)))
 	}
 }
 
